@@ -3,7 +3,7 @@ eyecite.get_citations in plain and markup mode with the three shipped
 tokenizers. Property modules supply the oracle."""
 import random
 
-from vmon import gen, tok
+from vmon import gen, instrument, tok
 
 TOKNAMES = {"AhocorasickTokenizer": "ac", "HyperscanTokenizer": "hs", "Tokenizer": "ref"}
 
@@ -39,6 +39,7 @@ def drive(spec, rec, on_result, extra=None, tokenizers=("ac", "hs", "ref"), ref_
             if name == "ref" and k % ref_every:
                 continue
             T = toks[name]
+            instrument.CONTEXT = dict(text=text, markup=markup, steps=steps, tokenizer=name)
             try:
                 if markup is not None:
                     cs = get_citations(markup_text=markup, clean_steps=steps, tokenizer=T)
